@@ -129,10 +129,14 @@ static void explore_stream(const char *method, const stream_t *st, int depth, in
 {
 	size_t E = st->elen;
 	/* the last three: 2^32 and beyond (the declared length is a size_t); -pm1- is endless by specification and is left out */
-	size_t decls[9] = { 0, 1, E ? E - 1 : 0, E, E + 1, 4 * E, (size_t) 1 << 32, ((size_t) 1 << 32) + (E > 2 ? E / 2 : 1), ((size_t) 1 << 33) + 7 };
+	size_t decls[13] = { 0, 1, E ? E - 1 : 0, E, E + 1, 4 * E, (size_t) 1 << 32, ((size_t) 1 << 32) + (E > 2 ? E / 2 : 1), ((size_t) 1 << 33) + 7,
+	                     /* declared lengths that end just past a progress-block boundary, inside what one decoding step produces */
+	                     BLOCK + 1, BLOCK + 100, 2 * BLOCK + 100, 2 * BLOCK + 1 };
 	int di, ndecl = sizeof(size_t) > 4 && strcmp(method, "-pm1-") && E < 100000 ? 9 : 6;
-	for (di = 0; di < ndecl; ++di) {
+	for (di = 0; di < 13; ++di) {
 		size_t declared = decls[di];
+		if (di >= ndecl && di < 9) continue;
+		if (di >= 9 && (!BLOCK || declared >= E)) continue;
 		run_t base, r;
 		size_t one[1];
 		size_t want;
